@@ -742,6 +742,9 @@ pub fn dump_scenario(scn: &Scenario) -> Value {
                         SymOp::PutRaw { frame, order, class, slot } => json!({"op":"putraw","frame":frame,
                             "order":order,"class":class,"slot":opt(slot)}),
                         SymOp::Drain => json!({"op":"drain"}),
+                        SymOp::Change { id, mclass, mfree, cclass, cop } => json!({"op":"change","id":opt(id),
+                            "mclass":opt(mclass.map(|c| c as usize)),"mfree":mfree,
+                            "cclass":opt(cclass.map(|c| c as usize)),"cop":cop}),
                         _ => json!({"op":"unsupported"}),
                     })
                     .collect(),
